@@ -26,10 +26,17 @@ type c16Entry struct {
 	User, Pass string
 	Fields     int    // 2 or 3
 	Mount      string // third field ("" = empty third field)
+	HashMode   int    // 0: the full digest; 1: blank hash field; 2: only the first 8 hex digits (such lines admit nobody)
 }
 
 func (e c16Entry) line() string {
 	h := fmt.Sprintf("%x", sha256.Sum256([]byte(e.Pass)))
+	switch e.HashMode {
+	case 1:
+		h = ""
+	case 2:
+		h = h[:8]
+	}
 	if e.Fields == 2 {
 		return e.User + ":" + h
 	}
@@ -37,6 +44,9 @@ func (e c16Entry) line() string {
 }
 
 func (e c16Entry) String() string {
+	if e.HashMode != 0 {
+		return e.User + ":" + []string{"", "<blank hash>", "<first 8 digits of the hash>"}[e.HashMode] + ":" + e.Mount
+	}
 	if e.Fields == 2 {
 		return e.User + ":sha256(" + e.Pass + ")"
 	}
@@ -52,7 +62,7 @@ func (e c16Entry) wantMount() string {
 
 type c16Cand struct{ User, Pass string }
 
-var c16Users = []string{"alice", "bob", "carol", "dave", "erin", "frank"}
+var c16Users = []string{"alice", "bob", "carol", "dave", "erin", "frank", "#ops"}
 
 // user names that are never in a table
 var c16Absent = []string{"nobody", "zed", "aaa", "mallory", "0", "trent", "~", "alic", "alicea", "Bob"}
@@ -139,7 +149,7 @@ func c16CheckTable(c *fw.Ctx, dir string, id int, table []c16Entry) {
 	}
 	for _, cd := range cands {
 		e, present := byUser[cd.User]
-		want := present && e.Pass == cd.Pass
+		want := present && e.Pass == cd.Pass && e.HashMode == 0
 		var p auth.Principal
 		var aerr error
 		func() {
@@ -184,7 +194,7 @@ func indexOfUser(t []c16Entry, u string) int {
 }
 
 func runC16(c *fw.Ctx) {
-	c.Rule = "credential files: the empty store and every table of 1-3 (quick) / 1-4 (thorough) distinct users out of 6, in every order, each line with 2 fields, 3 fields and a mount point, or 3 fields and an empty mount point - enumerated completely - plus seeded tables of 4-6 entries; each table is written to disk and loaded by the real FileHandler; candidates = every present pair, wrong password, the stored hash presented as password, every swapped pair, ten absent users (hashes before/between/after the stored ones) each with every stored password, empty user and/or password. Oracle: exact lookup in the generated table, mount point = third field or the default when absent/empty. Static handler likewise. distinct = (table, candidate set); non-trivial = table has >=2 entries or a 3-field line. End-to-end part: CONNECTs against a broker node with the file/static handler. Wiring part: getAuthHandler of cmd/wasp (configuration -> handler; package main, reached by a driver test injected with go test -overlay) with the settings of both stores present and the provider choosing; candidates from both stores"
+	c.Rule = "credential files: the empty store and every table of 1-3 (quick) / 1-4 (thorough) distinct users out of 6, in every order, each line with 2 fields, 3 fields and a mount point, or 3 fields and an empty mount point - enumerated completely - plus seeded tables of 4-6 entries, an eighth of whose lines carry a blank or truncated hash field (such a line admits nobody); user names include one that starts with '#'; each table is written to disk and loaded by the real FileHandler; candidates = every present pair, wrong password, the stored hash presented as password, every swapped pair, ten absent users (hashes before/between/after the stored ones) each with every stored password, empty user and/or password. Oracle: exact lookup in the generated table, mount point = third field or the default when absent/empty. Static handler likewise. distinct = (table, candidate set); non-trivial = table has >=2 entries or a 3-field line. End-to-end part: CONNECTs against a broker node with the file/static handler. Wiring part: getAuthHandler of cmd/wasp (configuration -> handler; package main, reached by a driver test injected with go test -overlay) with the settings of both stores present and the provider choosing; candidates from both stores"
 	c.Assume("second field of a credential line = lowercase hex SHA-256 of the password (the loader stores it into PasswordHash and compares it with the hash of the presented password)")
 	c.Assume("user names are distinct within a table and free of CSV metacharacters")
 	dir := os.Getenv("VERIF_WORK")
@@ -232,6 +242,9 @@ func runC16(c *fw.Ctx) {
 		for _, ui := range perm {
 			e := variants[rg.Intn(3)]
 			e.User, e.Pass = c16Users[ui], c16Pass(c16Users[ui])
+			if rg.Intn(8) == 0 {
+				e.HashMode = 1 + rg.Intn(2) // a locked account: blank or truncated hash field
+			}
 			if e.Fields == 3 && e.Mount != "" {
 				e.Mount = "tenant-" + e.User[:1]
 			}
